@@ -1,1 +1,48 @@
-From AwkV Require Import Layout.
+(** C01 property theorems (proofs in Proofs_C01.v): the index sequences that the slicing
+    specification [sg] and model [gn] use for a range item are Python's, and integer
+    indexes wrap / fail as Python's do. *)
+From AwkV Require Import Layout Ops_Getitem Proofs_C01.
+
+(* a range selects exactly range applied to slice(start,stop,step).indices(n): the arithmetic
+   progression from the clamped start that stays strictly before the clamped stop *)
+Theorem range_loop_is_python_slice : forall n start stop step i,
+  step <> 0 ->
+  let (s, e) := py_bounds n start stop step in
+  In i (py_indices n start stop step) <->
+  (exists k, 0 <= k /\ i = s + k * step /\ (if 0 <? step then i < e else e < i)).
+Proof. exact py_indices_spec. Qed.
+Print Assumptions range_loop_is_python_slice.
+
+(* ... visited in order, without repetition *)
+Theorem range_is_progression : forall n start stop step,
+  py_indices n start stop step =
+  let (s, e) := py_bounds n start stop step in map (fun k => s + k * step) (iota (py_count s e step)).
+Proof. exact py_indices_progression. Qed.
+Print Assumptions range_is_progression.
+
+(* ... and never addresses a non-existing element, whatever the bounds (overshooting, negative, None) *)
+Theorem range_never_out_of_bounds : forall n start stop step i,
+  0 <= n -> step <> 0 -> In i (py_indices n start stop step) -> 0 <= i < n.
+Proof. exact py_indices_in_range. Qed.
+Print Assumptions range_never_out_of_bounds.
+
+Theorem range_bounds_are_clamped : forall n start stop step,
+  0 <= n -> step <> 0 ->
+  let (s, e) := py_bounds n start stop step in
+  if 0 <? step then 0 <= s <= n /\ 0 <= e <= n else -1 <= s <= n - 1 /\ -1 <= e <= n - 1.
+Proof. exact py_bounds_in_range. Qed.
+Print Assumptions range_bounds_are_clamped.
+
+Theorem full_range_selects_everything : forall n, 0 <= n -> py_indices n None None 1 = iota n.
+Proof. exact full_slice_is_identity. Qed.
+Print Assumptions full_range_selects_everything.
+
+(* an integer index i selects element i (or i+n when negative) and is an error exactly outside [-n, n) *)
+Theorem integer_index_wraps : forall n i j,
+  wrap_at n i = Ok j <-> ((0 <= i < n /\ j = i) \/ (- n <= i < 0 /\ j = i + n)).
+Proof. exact wrap_at_spec. Qed.
+Print Assumptions integer_index_wraps.
+
+Theorem out_of_range_is_error : forall n i, (exists j, wrap_at n i = Ok j) <-> - n <= i < n.
+Proof. exact wrap_at_error. Qed.
+Print Assumptions out_of_range_is_error.
